@@ -381,12 +381,16 @@ def run(ctx):
             ctx.check(not acc and bool(rej), "R17.3", inst, pm.loc(), "the emulator accepts a %s" % what)
     al = prog.fn("add_label", MK)
     for (exists, same, want) in ((False, False, True), (True, True, True), (True, False, False)):
-        ex = absint.Explorer(prog, effects=eff, summaries={
+        # the registered label is a concrete string of the abstract store: compared with strcmp or by hand
+        from rules.strutil import FOLD as _FOLD
+        sums_al = dict(_FOLD)
+        sums_al.update({
             "find_label": lambda ex_, st_, a, f, e, x=exists: [((PTR("LAB") if x else NULL), {})],
-            "strcmp": lambda ex_, st_, a, f, e, s=same: [(INT(0 if s else 1), {})],
             "calloc": lambda ex_, st_, a, f, e: [(PTR("NEWLAB"), {})],
             "snprintf": lambda ex_, st_, a, f, e: [(INT(3), {})], "__builtin___snprintf_chk": lambda ex_, st_, a, f, e: [(INT(3), {})]})
-        outs = ex.run(al, [PTR("MT"), INT(3), ("str", "lab")], {})
+        ex = absint.Explorer(prog, effects=eff, summaries=sums_al, loop_bound=12 if exists else 2)
+        outs = ex.run(al, [PTR("MT"), INT(3), ("str", "lab")],
+                      {("LAB", F("mark_label", "label")): ("str", "lab" if same else "lag")})
         acc = [o for o in outs if o.kind == "ret" and o.ret == INT(0)]
         inst = "add_label:exists=%s:same=%s" % (exists, same)
         if want:
